@@ -86,16 +86,14 @@ Definition nlen {A} (l : list A) : N := N.of_nat (length l).
 
 (* vector::at — the checked access used by every positional getter *)
 Definition at_ {A} (l : list A) (i : N) : outcome A :=
-  match nth_error l (N.to_nat i) with
-  | Some x => if i <? nlen l then Ok x else Throw OutOfRange
-  | None => Throw OutOfRange
-  end.
+  if i <? nlen l then
+    match nth_error l (N.to_nat i) with Some x => Ok x | None => Throw OutOfRange end
+  else Throw OutOfRange.
 (* operator[] — unchecked *)
 Definition idx_ {A} (site : nat) (l : list A) (i : N) : outcome A :=
-  match nth_error l (N.to_nat i) with
-  | Some x => if i <? nlen l then Ok x else UB (IdxOOB site)
-  | None => UB (IdxOOB site)
-  end.
+  if i <? nlen l then
+    match nth_error l (N.to_nat i) with Some x => Ok x | None => UB (IdxOOB site) end
+  else UB (IdxOOB site).
 
 Fixpoint replace_nth {A} (n : nat) (x : A) (l : list A) : list A :=
   match l, n with
